@@ -263,6 +263,9 @@ func (x *Exec) frameEnv(f *Frame, st *State, header *ssa.BasicBlock) *Env {
 			if _, exists := env.vars[name]; exists {
 				continue
 			}
+			if st.world.get(name) != nil {
+				continue // world component names are not shadowed by locals
+			}
 			if p, ok := g.sliceObjs[v]; ok {
 				env.vars[name] = p
 				continue
